@@ -42,7 +42,13 @@ def cause_is_nsimplify(text, stack):
 
 PLAIN = set("0123456789. ")           # digits, points and the space that separates literals
 VMARK, CMARK = "\x00V", "\x00C"       # case markers: lexed under flag V / run inside a context
-CONTEXTS = ["⟨□⟩", "λ□;†", "1[□]", "□w", "⟨⟨□⟩|⟨⟩⟩", "□→a ←a", "1(□)", "□:_"]
+# (a context may hold the literal several times: then every copy must arrive -- a literal written after a modifier
+#  is a constant and takes nothing from the stack)
+CONTEXTS = ["⟨□⟩", "λ□;†", "1[□]", "□w", "⟨⟨□⟩|⟨⟩⟩", "□→a ←a", "1(□)", "□:_", "□ 1ß□", "□ □ ₌□ □", "□ □ ₍□ □", "□ 0ß□ □"]
+
+
+# how many leaves each context leaves on the stack (all equal to the literal's value)
+CONTEXT_LEAVES = [1, 1, 1, 1, 1, 1, 1, 1, 2, 4, 4, 2]
 
 
 def leaves(v, acc):
@@ -79,7 +85,8 @@ def observe(text):
         # left on the stack is the literal's value
         stack, ctx, err = runner.exec_text(CONTEXTS[ctxi].replace("□", text))
         vals = [runner.num_json(v) for v in leaves(stack or [], [])]
-        return {"a": cps(text), "vals": vals, "err": err or "", "lexonly": False, "vflag": False}
+        return {"a": cps(text), "vals": vals, "err": err or "", "lexonly": False, "vflag": False,
+                "reps": CONTEXT_LEAVES[ctxi]}
     stack, ctx, err = runner.exec_text(text)
     vals = [runner.num_json(v) for v in (stack or [])]
     return {"a": cps(text), "vals": vals, "err": err or "", "toks": toks, "lexonly": False, "vflag": False}
